@@ -10,7 +10,7 @@
 From Coq Require Import List NArith Bool.
 From Coq Require String.
 Import String.StringSyntax.
-From Sccache Require Import Base.Sx Model.Paths.
+From Sccache Require Import Base.Sx Model.Paths Model.C19Docker.
 Import ListNotations.
 Local Open Scope N_scope.
 Local Open Scope string_scope.
@@ -195,8 +195,18 @@ Definition run_fs2 (x : sx) : sx :=
   | _ => err "bad case"
   end.
 
+(* leg docker: ( #line ... ) = the docker diff of a used container *)
+Definition run_docker (x : sx) : sx :=
+  match x with
+  | SL ls =>
+      let '(rms, ok, after) := clean_lines (map get_B ls) in
+      SL [ SL (sym "rms" :: map SB rms); SL [sym "ok"; sbool ok]; SL (sym "after" :: map SB after) ]
+  | _ => err "bad case"
+  end.
+
 Definition dispatch (leg : list N) (x : sx) : sx :=
   if bytes_eqb leg (bs "calc") then run_calc x
   else if bytes_eqb leg (bs "fs") then run_fs x
   else if bytes_eqb leg (bs "fs2") then run_fs2 x
+  else if bytes_eqb leg (bs "docker") then run_docker x
   else err "unknown leg".
